@@ -536,7 +536,7 @@ impl Property for C12 {
     fn id(&self) -> &'static str {
         "C12"
     }
-    fn generate(&self, rng: &mut Rng, _tier: Tier) -> Box<dyn Case> {
+    fn generate(&self, rng: &mut Rng, tier: Tier) -> Box<dyn Case> {
         if rng.pct(5) {
             let mut probes: Vec<String> = vec![];
             for p in ["RETURN", "NEXT", "NEXT I", "NEXT I%", "CONT", "PRINT FNA(1)", "PRINT A;I;J;C;W%;Z;Q(1);\"<\";D$;\">\"", "WEND", "READ X:PRINT X"] {
@@ -556,6 +556,10 @@ impl Property for C12 {
         }
         let mut cfg = GenCfg::swarm(rng);
         cfg.size = *rng.pick(&[2usize, 4, 6, 10]);
+        if tier == Tier::Thorough && rng.pct(35) {
+            // the thorough tier also explores larger programs
+            cfg.size *= 2;
+        }
         cfg.fns = rng.pct(60);
         cfg.data = rng.pct(60);
         cfg.arrays = rng.pct(60);
